@@ -3,6 +3,7 @@
 //!   {"k":"base"}                                   the unmutated seed
 //!   {"k":"set","f":<field idx>,"val":"<u64 dec>"}  overwrite a field (width bytes, LE; inside an
 //!                                                   encrypted region: decrypt, patch, re-encrypt)
+//!   {"k":"set2","f":i,"val":..,"g":j,"val2":..}     two sibling fields edited together
 //!   {"k":"tag","f":<field idx>,"how":"unknown|reversed|next|zero"}
 //!   {"k":"cut","at":n}                             keep the first n bytes
 //!   {"k":"chunk","seq":s,"op":"swap|dup|del|zero|over","pos":p}   single edit of a chunk sequence
@@ -70,6 +71,14 @@ pub fn apply(seed: &Seed, op: &Value, label: &str) -> Vec<u8> {
             let f = &seed.fields[gi(op, "f") as usize];
             let val: u64 = gs(op, "val").parse().unwrap_or_else(|_| tool_error("bad val"));
             write_field(&mut b, f, val);
+        }
+        "set2" => {
+            let f = &seed.fields[gi(op, "f") as usize];
+            let g = &seed.fields[gi(op, "g") as usize];
+            let v: u64 = gs(op, "val").parse().unwrap_or_else(|_| tool_error("bad val"));
+            let v2: u64 = gs(op, "val2").parse().unwrap_or_else(|_| tool_error("bad val2"));
+            write_field(&mut b, f, v);
+            write_field(&mut b, g, v2);
         }
         "tag" => {
             let f = &seed.fields[gi(op, "f") as usize];
